@@ -4,6 +4,7 @@ package common
 import (
 	"context"
 	"fmt"
+	"io"
 	"net"
 	"runtime"
 	"strings"
@@ -174,6 +175,33 @@ func (r *YieldReader) ReadPacketConn(conn net.PacketConn, timeout time.Duration)
 	r.K.Yield("reader.prePC", 0)
 	stall(r.K, r.Slow, "reader.stall")
 	return r.Inner.(dns.PacketConnReader).ReadPacketConn(conn, timeout)
+}
+
+// OwnReader is a DecorateReader product that reads stream messages itself: the application has its own
+// framing code (metrics, a size policy) and does not hand on to the reader it was given. It sets no
+// deadlines - those are the server's business. Datagrams are left to the reader it wraps.
+type OwnReader struct {
+	K          *kernel.K
+	dns.Reader
+}
+
+//go:norace
+func (o *OwnReader) ReadTCP(conn net.Conn, timeout time.Duration) ([]byte, error) {
+	o.K.Yield("reader.own", 0)
+	var pre [2]byte
+	if _, err := io.ReadFull(conn, pre[:]); err != nil {
+		return nil, err
+	}
+	m := make([]byte, int(pre[0])<<8|int(pre[1]))
+	if _, err := io.ReadFull(conn, m); err != nil {
+		return nil, err
+	}
+	return m, nil
+}
+
+//go:norace
+func (o *OwnReader) ReadPacketConn(conn net.PacketConn, timeout time.Duration) ([]byte, net.Addr, error) {
+	return o.Reader.(dns.PacketConnReader).ReadPacketConn(conn, timeout)
 }
 
 type Decorator struct {
